@@ -110,7 +110,8 @@ pub fn worker_handle(req: &Value) -> Value {
                             m.properties.map_or(-1, |p| n4(p.specificheat)), m.resistance.map_or(-1, n4)])).collect::<Vec<_>>(),
                         "wallcons": d.db.wallcons.values().filter(|c| !c.material.is_empty()).map(|c| json!([c.name, c.material, c.thickness.iter().map(|t| n4(*t)).collect::<Vec<_>>()])).collect::<Vec<_>>(),
                         "spaces": d.spaces.iter().map(|s| json!([s.name, s.stype, s.floor, n4(s.height), n4(s.x), n4(s.y), n4(s.z), n4(s.angle_with_building_north),
-                            s.insidete, n4(s.multiplier), n4(s.floor_multiplier), s.spaceconds, s.systemconds, s.polygon.as_vec().iter().map(|p| json!([n4(p.x), n4(p.y)])).collect::<Vec<_>>()])).collect::<Vec<_>>(),
+                            s.insidete, n4(s.multiplier), n4(s.floor_multiplier), s.spaceconds, s.systemconds, s.polygon.as_vec().iter().map(|p| json!([n4(p.x), n4(p.y)])).collect::<Vec<_>>(),
+                            s.airchanges_h.map_or(-1, n4), n4(s.power), n4(s.veei_obj), n4(s.veei_ref), s.spacetype])).collect::<Vec<_>>(),
                         "walls": d.walls.iter().map(|w| json!([w.name, format!("{:?}", w.bounds), w.space, w.cons, w.location.clone().unwrap_or_else(|| "-".into()),
                             n4(w.tilt), w.nextto.clone().unwrap_or_else(|| "-".into())])).collect::<Vec<_>>(),
                         "windows": d.windows.iter().map(|w| json!([w.name, w.wall, w.cons, n4(w.x), n4(w.y), n4(w.width), n4(w.height), n4(w.setback),
